@@ -1,4 +1,5 @@
 import SignalGen.Eq.BitDepth
+import SignalGen.Gen.Kernels
 /-!
 # Regenerated tie, C08: `FloatAsSigned` / `FloatAsUnsigned` per sample, as the Go source defines them now, are the model's `f2sK` / `f2uK` for every float value, float format and integer type
 -/
